@@ -118,6 +118,7 @@ _refmode = st.sampled_from(['base', 'base', 'base', 'peratom', 'single', 'axes',
 _nbrmode = st.sampled_from(['cutoff', 'cutoff', 'neighbors'])
 _ref01 = st.sampled_from([0, 1])
 _quarter = st.integers(0, 3)
+_lazy = st.sampled_from([0, 0, 0, 1, 2])
 _third = st.integers(0, 2)
 _cfg = st.sampled_from(['F', 'slip'])
 _cut = st.integers(0, 2)
@@ -130,7 +131,7 @@ _w2 = st.lists(gens.nice(-0.95, 0.95, 3), min_size=3, max_size=3)
 def strain_cases(draw):
     return {'xtal': draw(CRYSTALS), 'shells': draw(SHELLS), 'pbc': draw(_pbc_strain), 'F': draw(GRADIENTS),
             'move': draw(MOVES), 'theta': draw(_theta), 'refmode': draw(_refmode), 'nbrmode': draw(_nbrmode),
-            'wrapper': draw(_quarter) == 0, 'ddref': draw(_ref01)}
+            'wrapper': draw(_quarter) == 0, 'ddref': draw(_ref01), 'ddlazy': draw(_lazy)}
 
 
 # ----------------------------------------------------------------------------- slip
@@ -161,7 +162,7 @@ def slip_cases(draw):
     return {'xtal': draw(CRYSTALS), 'shells': draw(SHELLS), 'slip': draw(SLIPS),
             'm_angle': draw(_angle), 'n_flip': draw(_bool), 'plane_ofs': [draw(_ofs), draw(_ofs)],
             'ddref': draw(_ref01), 'ddnbr': draw(_nbrmode), 'svnbr': draw(_nbrmode),
-            'nye': draw(_third) == 0, 'theta': draw(_theta)}
+            'nye': draw(_third) == 0, 'theta': draw(_theta), 'ddlazy': draw(_lazy)}
 
 
 # ----------------------------------------------------------------------------- displacement
@@ -172,13 +173,14 @@ _amp = st.one_of(gens.nice(0.0, 0.45, 3), st.just(0.45))
 _seed = st.integers(1, 2 ** 31)
 _pbc_any = st.sampled_from([[True, True, True]] * 3 + gens.PBCS)
 _bigt = st.lists(gens.nice(-2.5, 2.5, 3), min_size=3, max_size=3)
+_pbc1 = st.one_of(st.none(), st.none(), st.none(), st.sampled_from(gens.PBCS))
 
 
 @st.composite
 def displacement_cases(draw):
     mode = draw(_umode)
     c = {'xtal': draw(CRYSTALS), 'shells': {'gap': 0, 'frac': 0.5}, 'pbc': draw(_pbc_any), 'mode': mode,
-         'boxref': draw(_boxref), 'move': draw(MOVES)}
+         'boxref': draw(_boxref), 'move': draw(MOVES), 'pbc1': draw(_pbc1)}
     if mode == 'F':
         c['F'] = draw(GRADIENTS)
     elif mode == 'slip':
